@@ -2,42 +2,31 @@ package main
 
 import (
 	"crypto/ed25519"
-	"crypto/ecdsa"
-	"crypto/elliptic"
+	"encoding/base64"
 	"fmt"
-	"math/big"
+	"os"
+	"strconv"
 
-	"golang.org/x/crypto/ssh"
-	"verif/vf"
+	"verif/checks/c39/detkeys"
+	cr "verif/ref/sshcertref"
+	kv "verif/ref/sshkeyv1"
+	sr "verif/ref/sshsigref"
 )
 
 func main() {
-	pub1, priv1, _ := ed25519.GenerateKey(vf.NewRand("a"))
-	pub2, _, _ := ed25519.GenerateKey(vf.NewRand("b"))
-	bad := append(append([]byte{}, priv1[:32]...), pub2...)
-	k := ed25519.PrivateKey(bad)
-	p, v, _ := vf.Protect(func() {
-		s, err := ssh.NewSignerFromKey(&k)
-		fmt.Println("signer", err)
-		sig, err := s.Sign(vf.NewRand("r"), []byte("hello"))
-		fmt.Println("sign err", err)
-		if err == nil {
-			fmt.Println("verify", s.PublicKey().Verify([]byte("hello"), sig))
-		}
-	})
-	fmt.Println(p, v)
-	_ = pub1
-	// negative D
-	ek, _ := ecdsa.GenerateKey(elliptic.P256(), vf.NewRand("e"))
-	ek.D = new(big.Int).Neg(ek.D)
-	p, v, _ = vf.Protect(func() {
-		s, err := ssh.NewSignerFromKey(ek)
-		fmt.Println("signer", err)
-		sig, err := s.Sign(vf.NewRand("r"), []byte("hello"))
-		fmt.Println("sign err", err)
-		if err == nil {
-			fmt.Println("verify", s.PublicKey().Verify([]byte("hello"), sig))
-		}
-	})
-	fmt.Println(p, v)
+	dir := os.Args[1]
+	vb, _ := strconv.ParseUint(os.Args[2], 0, 64)
+	ca := detkeys.Ed25519("ca")
+	user := detkeys.Ed25519("user")
+	up := sr.FromEd25519(user.Public().(ed25519.PublicKey))
+	ct := &cr.Cert{TypeName: sr.CertTypeOf(sr.ED25519), Nonce: make([]byte, 32), KeyFields: up.KeyFields(), Serial: 1, CertType: cr.User, KeyID: "probe",
+		Principals: []string{"alice"}, ValidAfter: 0, ValidBefore: vb}
+	cab := sr.FromEd25519(ca.Public().(ed25519.PublicKey)).Blob()
+	ct.SignWith(cab, func(tbs []byte) sr.Sig { return sr.SignEd25519(ca, tbs) })
+	os.WriteFile(dir+"/user", kv.Armor(kv.Encode(&kv.Key{Type: sr.ED25519, Ed25519: user}, "user", 5)), 0o600)
+	os.WriteFile(dir+"/user.pub", []byte("ssh-ed25519 "+base64.StdEncoding.EncodeToString(up.Blob())+" user\n"), 0o644)
+	os.WriteFile(dir+"/user-cert.pub", []byte(ct.TypeName+" "+base64.StdEncoding.EncodeToString(ct.Bytes())+" user\n"), 0o644)
+	os.WriteFile(dir+"/allowed", []byte("alice cert-authority ssh-ed25519 "+base64.StdEncoding.EncodeToString(cab)+"\n"), 0o644)
+	os.WriteFile(dir+"/msg", []byte("hello\n"), 0o644)
+	fmt.Println("written, valid before", vb)
 }
